@@ -273,9 +273,18 @@ func runResubCase(c *Case) string {
 		if len(p) != 3 || p[0] < 0 {
 			return "res " + c.id + " unsupported"
 		}
+		delay := time.Duration(p[1]) * 300 * time.Microsecond
+		if p[1] == 2 {
+			// a long delay, only together with a cancellation during the first attempt (or before):
+			// the run must end at once (`prompt=1`), not after the delay
+			if cancelAt != "pre" && !strings.HasPrefix(cancelAt, "a1") {
+				return "res " + c.id + " unsupported"
+			}
+			delay = 3 * time.Second
+		}
 		target = ro.RetryWithConfig[int](ro.RetryConfig{
 			MaxRetries:     uint64(p[0]),
-			Delay:          time.Duration(p[1]) * 300 * time.Microsecond,
+			Delay:          delay,
 			ResetOnSuccess: p[2] != 0,
 		})(obs)
 	case "RepeatWith":
@@ -379,7 +388,9 @@ func runResubCase(c *Case) string {
 		prev := runtime.GOMAXPROCS(1)
 		defer runtime.GOMAXPROCS(prev)
 	}
+	started := time.Now()
 	target.SubscribeWithContext(runCtx, endpoint)
+	elapsed := time.Since(started)
 	if src.gated {
 		// attempt k+1 can only be subscribed while attempt k plays: step them in order
 		for k := 1; ; k++ {
@@ -403,7 +414,15 @@ func runResubCase(c *Case) string {
 	defer src.mu.Unlock()
 	tmu.Lock()
 	defer tmu.Unlock()
-	return fmt.Sprintf("res %s trace=%s log=%s attempts=%d live=%d evals=%d", c.id, joinOrDash(trace), joinOrDash(src.log), src.n, src.maxLive, evals)
+	res := fmt.Sprintf("res %s trace=%s log=%s attempts=%d live=%d evals=%d", c.id, joinOrDash(trace), joinOrDash(src.log), src.n, src.maxLive, evals)
+	if op == "RetryWithConfig" && p[1] == 2 {
+		if elapsed < 1500*time.Millisecond {
+			res += " prompt=1"
+		} else {
+			res += " prompt=0"
+		}
+	}
+	return res
 }
 
 // ---------- generation ----------
@@ -572,6 +591,12 @@ func genResub(tier string, seed int64, only string) []*Case {
 							}
 						}
 					}
+				}
+			}
+			if len(l) >= 1 && len(l) <= 2 && l[0].fail && sample(3) {
+				// cancellation while the (long) delay is pending: Retry must stop at once
+				for _, cp := range []string{"pre", "a1n0", "a1t"} {
+					add("RetryWithConfig", fmt.Sprintf("%d,2,%d", r.Intn(3), r.Intn(2)), "plain", "-", "0", mode, "-", cp, l)
 				}
 			}
 			if sample(2) {
